@@ -33,6 +33,8 @@ for i in ids:
         text = text + " " + R10[i]
     if i in globals().get('R11', {}):
         text = text + " " + R11[i]
+    if i in globals().get('R12', {}):
+        text = text + " " + R12[i]
     checks.append({
         "property_id": i,
         "quick_cmd": f"bin/vcheck -property {i} -tier quick",
